@@ -195,3 +195,7 @@ def lookup_all(d, xs):
 
 def positive_items(d):
     return {k: v + 1 for k, v in d.items() if v > 0}
+
+
+def union_all(xs):
+    return set().union(*(x for x in xs))
